@@ -136,47 +136,74 @@ for _fam in FAMILIES:
     CONDITIONS.append({"fn": "c09_cutoff_" + _fam, "quick": 60, "thorough": 200})
 
 # ---- extends cycles ------------------------------------------------------------------------------------------
+# a chain of `tail` templates (p0 is rendered) leading into a cycle of n templates: tail 0 renders a member of the
+# cycle, tail >= 1 renders a template the cycle never comes back to. Selector-only, rendered untraced under an
+# alarm: a walk that never ends is an ordinary, replayable failure instead of an exhausted time budget.
+import signal as _signal  # noqa: E402
+
 CYC = {}
 for _n in (1, 2, 3):
     _src = {}
     for _i in range(_n):
-        _src["t%d" % _i] = "{%% extends 't%d' %%}{%% block b %%}%d{%% endblock %%}" % ((_i + 1) % _n, _i)
-    _src["leaf"] = "{% extends 't0' %}{% block b %}L{% endblock %}"
+        _src["t%d" % _i] = "{%% extends 't%d' %%}{%% block b %%}%d{%% endblock %%}{%% block c%d %%}{%% endblock %%}" % ((_i + 1) % _n, _i, _i)
+    _src["p1"] = "{% extends 't0' %}{% block b %}P1{% endblock %}"
+    _src["p2"] = "{% extends 'p1' %}{% block b %}P2{{ block.super }}{% endblock %}"
     _e = Env(extra=True, loader=CachingDictLoader(_src, auto_reload=False))
     CYC[_n] = _e
 
 
-def c09_extends_cycle(n: int, from_leaf: bool, L: int, use_async: bool) -> bool:
-    """
-    pre: 1 <= n <= 3 and 0 <= L <= 6
-    post: _
-    """
-    if excluded("c09_extends_cycle", locals()):
-        return True
-    nn = 1 if n == 1 else 2 if n == 2 else 3
-    env = CYC[nn]
+class _CycHang(BaseException):
+    pass
+
+
+def _cyc_alarm(signum, frame):
+    raise _CycHang()
+
+
+def cycle_outcome(n, tail, L, use_async, from_string):
+    env = CYC[n]
+    old_limit = env.context_depth_limit
     env.context_depth_limit = L
+    old = _signal.signal(_signal.SIGALRM, _cyc_alarm)
+    _signal.alarm(5)
     try:
         try:
-            t = env.get_template("leaf" if from_leaf else "t0")
+            name = ("t0", "p1", "p2")[tail]
+            t = env.from_string("{% extends '" + name + "' %}{% block b %}S{% endblock %}") if from_string else env.get_template(name)
             if use_async:
                 from vf.hx import drive
                 drive(t.render_async())
             else:
                 t.render()
-            r = "completed"
+            return "completed"
         except TemplateInheritanceError:
-            r = "inheritance"
+            return "inheritance"
         except LiquidError as e:
-            r = "liquid:" + type(e).__name__
+            return "liquid:" + type(e).__name__
         except RecursionError:
-            r = "RecursionError"
+            return "RecursionError"
+        except _CycHang:
+            return "hang"
     finally:
-        env.context_depth_limit = 30
+        _signal.alarm(0)
+        _signal.signal(_signal.SIGALRM, old)
+        env.context_depth_limit = old_limit
+
+
+def c09_extends_cycle(n: int, tail: int, L: int, use_async: bool, from_string: bool) -> bool:
+    """
+    pre: 1 <= n <= 3 and 0 <= tail <= 2 and 0 <= L <= 6
+    post: _
+    """
+    if excluded("c09_extends_cycle", locals()):
+        return True
+    from vf.hx import cbool, cint, untraced
+    n, tail, L, use_async, from_string = cint(n, 1, 3), cint(tail, 0, 2), cint(L, 0, 6), cbool(use_async), cbool(from_string)
+    r = untraced(lambda: cycle_outcome(n, tail, L, use_async, from_string))
     return finish(r == "inheritance" or r == "liquid:ContextDepthError")
 
 
-CONDITIONS.append({"fn": "c09_extends_cycle", "quick": 60, "thorough": 120})
+CONDITIONS.append({"fn": "c09_extends_cycle", "quick": 60, "thorough": 120, "sel_only": True})
 
 
 # ---- T2 frame budget -------------------------------------------------------------------------------------------
@@ -462,6 +489,8 @@ def c09_deep_expression(fam: int, di: int, mode: int) -> bool:
 
 
 DETAIL = globals().get("DETAIL", {})
+DETAIL["c09_extends_cycle"] = lambda n, tail, L, use_async, from_string: {"cycle_length": n, "templates_before_the_cycle": tail, "context_depth_limit": L,
+                                                                         "outcome": cycle_outcome(n, tail, L, use_async, from_string)}
 DETAIL["c09_deep_expression"] = lambda fam, di, mode: {"source_head": deep_source(fam, 3), "depth": _DEPTHS[di], "mode": mode,
                                                       "outcome": deep_outcome(fam, _DEPTHS[di], mode)}
 CONDITIONS.append({"fn": "c09_deep_expression", "quick": 60, "thorough": 120, "sel_only": True})
